@@ -292,7 +292,6 @@ Without(s, D) == SelectSeq(s, LAMBDA x : x \notin D)
 FitsStale(tab, obs, probe, cell, D) ==
   /\ cell.e = "" /\ D # {}
   /\ LET want == RefCell(tab, obs, probe).v
-         live == {tab.rows[j].id : j \in 1..Len(tab.rows)}
      IN IF obs.one
         THEN cell.v[1] \in (D \cup {0}) \/ cell.v = want
         ELSE Without(cell.v, D \cup {0}) = Without(want, D)
@@ -315,6 +314,8 @@ FitsStale(tab, obs, probe, cell, D) ==
 (*            lookup indexes are rebuilt from scratch)                     *)
 (*   "probe"  UpdateRecord O row {col: val}                                *)
 (* Values in edits are storable as they are (already of the column type).  *)
+(* A cell update whose value is Python-equal to the stored one is dropped  *)
+(* by the engine (1 over 1.0 leaves 1.0): SetCell.                         *)
 (***************************************************************************)
 E(op, row, col, val, col2, val2, cells, rows, ids) ==
   [op |-> op, row |-> row, col |-> col, val |-> val, col2 |-> col2, val2 |-> val2,
